@@ -44,6 +44,9 @@ CONFIGS = {
 # property -> (quick configs, extra thorough configs); "cfg:checked" selects the checked profile
 PLAN = {
     "C01": (["default", "compact", "radix+format", "compact+radix+format"], ["pow2", "format", "radix", "compact+radix", "nostd"]),
+    "C02": (["default", "compact", "radix+format"], ["pow2", "format", "radix", "compact+radix+format", "nostd"]),
+    "C03": (["default", "compact", "pow2", "radix", "compact+radix", "radix+format"], ["compact+radix+format", "nostd"]),
+    "C04": (["default", "compact", "pow2", "radix", "radix+format"], ["compact+radix", "compact+radix+format", "format"]),
 }
 
 ENV = dict(os.environ)
@@ -298,7 +301,7 @@ def check(prop, tier):
             json.dump(ev, f, indent=1)
     for l in known_lines:
         print(l)
-    for l in lines:
+    for l in dict.fromkeys(lines):
         print(l)
     sys.stdout.flush()
     log(f"{prop} [{tier}] evaluations={evaluations} distinct_nontrivial={distinct} violations={len(violations)} known={len(known_lines)} wall={wall:.0f}s")
